@@ -564,6 +564,24 @@ Theorem C07_decoded_file_is_read : forall file si frames e rp,
       FlacReaders.Spec.exactly_once (concat frames) atr.
 Proof. exact decoded_file_is_read. Qed.
 
+(* C03 + C07: a file made of ANY valid frame trees — every legal syntactic alternative, not only this encoder's — behind a
+   STREAMINFO and any further metadata blocks: the sample reader model delivers the RFC 9639 semantics of the frames,
+   exactly once and in order, under every seek-free call history *)
+Theorem C03_valid_file_is_read : forall si others fs allb (e : FlacReaders.Ser.endian) (rp : FlacReaders.RNum.profile),
+  FlacCodec.File.si_ok si -> FlacCodec.File.blocks_ok others ->
+  Forall (FlacCodec.Interrupted.frame_ok si) fs -> FlacCodec.Interrupted.frames_bytes fs = Some allb ->
+  (FlacCodec.Ast.si_total si = 0 \/ FlacCodec.Interrupted.total_samples fs = FlacCodec.Ast.si_total si) ->
+  let pcm := concat (map (fun f => FlacCodec.Stream.interleave_frame (FlacCodec.Struct.sem_frame f)) fs) in
+  N.of_nat (length pcm) < 2 ^ 36 ->
+  exists F, FlacReaders.Spec.valid_file F /\ FlacReaders.Spec.pcm F = pcm /\
+    forall ops, FlacReaders.Spec.no_sseek ops -> Forall FlacReaders.Spec.sop_ok (snd (FlacReaders.Seek.sample_run F ops)) ->
+      let atr := map (FlacReaders.Spec.abs_s F) (snd (FlacReaders.Seek.sample_run F ops)) in
+      Forall (FlacReaders.Spec.cur_ok pcm) atr /\
+      FlacReaders.Spec.chained 0 atr (FlacReaders.Spec.spos F (fst (FlacReaders.Seek.sample_run F ops))) /\
+      FlacReaders.Spec.exactly_once pcm atr.
+Proof. exact valid_file_is_read. Qed.
+
+Print Assumptions C03_valid_file_is_read.
 Print Assumptions C07_decoded_file_is_read.
 Print Assumptions C06_byte_written_file_seeks.
 Print Assumptions C06_channel_written_file_seeks.
